@@ -194,7 +194,7 @@ def run_case(job):
     import z3, gosmt
     t0 = time.time()
     res = {'entry': job['entry'], 'forks': job.get('forks') or {}, 'obligations': [], 'covers': [], 'error': None,
-           'needfork': None}
+           'needfork': None, 'hid': job.get('hid')}
     try:
         prog = gosmt.load_prog(job['prog'])
         eng = gosmt.Engine(prog)
@@ -208,6 +208,14 @@ def run_case(job):
         except gosmt.NeedFork as nf:
             res['needfork'] = (nf.name, nf.n)
             return res
+        # activations that can never be resumed (blocked on a channel forever): run the harness's VerifOnBlocked there
+        onb = job['entry'].rsplit('.', 1)[0] + '.VerifOnBlocked'
+        for bst in list(eng.blocked_states):
+            if onb in eng.funcs:
+                eng.depth_blocked_ok = False
+                eng.call(gosmt.State(bst.pc, {}, bst.heap, ()), onb, [], {'type': None})
+            else:
+                eng.obligations.append(('blocked-forever', bst.pc))
         res['symex_s'] = round(time.time() - t0, 2)
         res['stats'] = {'instrs': eng.stats['instrs'], 'merges': eng.stats['merges'], 'feas': eng.stats['feas'],
                         'pruned': eng.stats['pruned'], 'blocks': eng.stats.get('blocks', 0),
@@ -289,7 +297,7 @@ def run_jobs(jobs, procs=NCPU):
     with multiprocessing.get_context('fork').Pool(procs, _init_worker, maxtasksperchild=1) as pool:
         def submit(job):
             pool.apply_async(run_case, (job,), callback=lambda r, job=job: done.put((job, r)),
-                             error_callback=lambda e, job=job: done.put((job, {'entry': job['entry'], 'forks': job.get('forks') or {},
+                             error_callback=lambda e, job=job: done.put((job, {'entry': job['entry'], 'forks': job.get('forks') or {}, 'hid': job.get('hid'),
                                                                                'obligations': [], 'covers': [], 'needfork': None,
                                                                                'error': 'worker failed: %r' % (e,)})))
         for j in jobs:
@@ -340,18 +348,19 @@ def check_harnesses(ctx, harnesses, allow=None):
     jobs, hmap = [], {}
     for gi, (key, hs) in enumerate(groups.items()):
         files = dict(key[0])
-        prog = ctx.export(files, list(key[1]), [h.fq for h in hs], allow=allow, tag='prog%d' % gi)
+        roots = sorted({h.fq for h in hs} | {h.pkgpath + '.VerifOnBlocked' for h in hs if h.hang_labels})
+        prog = ctx.export(files, list(key[1]), roots, allow=allow, tag='prog%d' % gi)
         for h in hs:
             kr = {}
             for k in ctx.known:
                 if k.get('status') == 'open' and k.get('harness') == h.entry:
                     kr.setdefault(k['label'], []).append(k['region'])
             jobs.append({'prog': prog, 'entry': h.fq, 'unwind': h.unwind, 'timeout_ms': h.timeout_ms,
-                         'known_regions': kr, 'opts': h.opts})
-            hmap[h.fq] = h
+                         'known_regions': kr, 'opts': h.opts, 'hid': len(hmap)})
+            hmap[len(hmap)] = h
     results = run_jobs(jobs)
     for r in results:
-        h = hmap[r['entry']]
+        h = hmap[r['hid']]
         r['harness'] = h.entry
         ctx.results.append(r)
         if r.get('error'):
